@@ -42,7 +42,7 @@ Init ==
     [] Slice = "discinfo" ->
          /\ tops = {"A"} /\ kidtype = [t \in tops |-> "none"] /\ kid2 = [t \in tops |-> FALSE] /\ keyby = "uid"
          /\ paths = [t \in tops |-> {}] /\ pkgs = [t \in tops |-> {}] /\ main = "default"
-         /\ sec \in [ts : {"intfloat", "fraction", "huge", "negative", "tiny"}, desc : {"plain", "innerquote", "blanks", "unicode", "endquote", "startquote", "separators", "mixedquotes"},
+         /\ sec \in [ts : {"intfloat", "fraction", "huge", "negative", "tiny"}, desc : {"plain", "innerquote", "blanks", "unicode", "endquote", "startquote", "separators", "mixedquotes", "hash", "semicolon"},
                      discs : {"ALL", "one", "three", "unsorted"}]
 Next == FALSE /\ UNCHANGED vars
 
